@@ -34,6 +34,7 @@ type sysOpts struct {
 	OutCap   uint32 // 0 = default
 	IntCap   uint32
 	SigCap   uint32 // MaxSignatureChecks; 0 = default
+	N3Cap    uint32 // MaxNSEC3Hashes; 0 = default
 	QMin     int    // qname minimisation level (0 = off)
 	DNSSEC   bool
 	MaxDepth int
@@ -133,6 +134,7 @@ func newSysPipe(t *topo, o sysOpts) *sysPipe {
 			MaxOutboundQueries: o.OutCap,
 			MaxInternalQueries: o.IntCap,
 			MaxSignatureChecks: o.SigCap,
+			MaxNSEC3Hashes:     o.N3Cap,
 		}
 		cfg.QnameMinLevel = o.QMin
 		cfg.Timeout.Duration = sysExchangeTimeout
@@ -147,7 +149,7 @@ func newSysPipe(t *topo, o sysOpts) *sysPipe {
 		sp.P = l3.NewPipe(t.W, l3.PipeOpts{DNSSEC: o.DNSSEC, Tweak: tweak})
 	}
 	sp.Policy = middleware.MustRecursionWorkPolicyFromConfig(sp.P.Cfg.RecursionFirewall)
-	sp.Cfg = configuredCaps([nKinds]uint32{o.OutCap, o.IntCap, 0, 0, o.SigCap, 0, 0, 0})
+	sp.Cfg = configuredCaps([nKinds]uint32{o.OutCap, o.IntCap, 0, 0, o.SigCap, 0, o.N3Cap, 0})
 	return sp
 }
 
